@@ -68,6 +68,19 @@ def run(run, harness, replay=None):
         r, cnt = tlc_cases("Gen_TokenEdits", "Gen_TokenEdits_%s.cfg" % tier, epath, workers=4, timeout=3000)
         run.add_tlc("Gen_TokenEdits", r)
         jobs.append(["edits", epath, os.path.join(VERIF, "corpus"), "45" if tier == "quick" else "150"])
+        # operand substitution space: every name / number of long generated programs replaced by values of other types
+        vpath = os.path.join(run.work, "value_edits.ndjson")
+        r, cnt = tlc_cases("Gen_TokenEdits", "Gen_TokenEdits_values_%s.cfg" % tier, vpath, workers=4, timeout=3000)
+        run.add_tlc("Gen_TokenEdits/values", r)
+        jobs.append(["values", vpath, "-", "14" if tier == "quick" else "120"])
+        # the operator x operand-type matrix (Gen_OpMatrix.tla): no application, well-typed or not, may crash the front end
+        import opmatrix
+        mpath = os.path.join(run.work, "opmatrix.ndjson")
+        r, cnt = tlc_cases("Gen_OpMatrix", "Gen_OpMatrix.cfg", mpath, workers=4, timeout=1200)
+        run.add_tlc("Gen_OpMatrix", r)
+        tpath = os.path.join(run.work, "opmatrix_texts.ndjson")
+        write_ndjson(tpath, [{"kind": "text", "text": opmatrix.case(c)[1], "prog": "operator-matrix", "edit": c} for c in read_ndjson(mpath)])
+        jobs.append(["texts", tpath])
         # cut-and-continue space: every prefix of construct-covering programs followed by every short token string
         cpath = os.path.join(run.work, "cuts.ndjson")
         r, cnt = tlc_cases("Gen_TokenStrings", "Gen_TokenStrings_%s.cfg" % tier, cpath, workers=4, timeout=3000)
